@@ -3,12 +3,15 @@ CONSTANTS
   Codec = "bijective"
   Place = "byref"
   Window = 3
+  WindowRows = 3
+  MergeMode = "all"
+  Ordered = FALSE
   Offsets <- OffSmall
   Rects <- FewRects
   MaxCells = 3
   MaxMerges = 1
   MaxSheets = 2
-  Rots <- RotStep2
+  Rots <- RotStep3
   Layouts <- LayAll
 CONSTRAINT Emit
 CHECK_DEADLOCK FALSE
